@@ -439,6 +439,16 @@ PROPERTIES = {
             {"bin": "alloc_bounded",
              "quick": {"cases": 15000, "procs": 4, "maxlen": 400},
              "thorough": {"cases": 150000, "procs": 8, "maxlen": 400}},
+            # small transit-event limits (the backend reads 4 / 8 events per pass and queue): a burst that is a multiple of
+            # the limit, drained, then a statement that exactly fits the free space. What a failing case shows depends on the
+            # queue state the process has reached (a real backend thread drains it), so these jobs use the real-thread
+            # confirmation rule: no shrinking, a second failing execution or an independent process with the same complaint
+            {"bin": "alloc", "params": {"hard_limit": 4}, "realthread": True,
+             "quick": {"cases": 15000, "procs": 2, "maxlen": 400},
+             "thorough": {"cases": 150000, "procs": 4, "maxlen": 400}},
+            {"bin": "alloc", "params": {"hard_limit": 8}, "realthread": True,
+             "quick": {"cases": 15000, "procs": 2, "maxlen": 400},
+             "thorough": {"cases": 150000, "procs": 4, "maxlen": 400}},
         ],
     },
     "C12": {
